@@ -1,36 +1,69 @@
-pub mod apply { pub use super::apply_op; }
+// ================================================================================================
+// src/taskdb/apply.rs (apply_op, try_apply_op) and src/taskdb/sync.rs (Version, apply_version, sync)
+// ================================================================================================
+pub mod apply { pub use super::{apply_op, try_apply_op}; }
+//@props C01 C02 C04 C07
 //@extract src/taskdb/apply.rs :: fn apply_op
 pub fn apply_op(txn: &mut dyn StorageTxn, op: &SyncOp) -> (r: Result<()>)
+    requires old(txn).inv(), !old(txn).st().committed,
+    ensures final(txn).inv(),
+        //@ob C01 C05 C07 apply_op.follows-the-documented-operation-model
+        match r {
+            Ok(_) => valid(old(txn).st().tasks, *op)
+                && final(txn).st() == (TxnView { tasks: apply(old(txn).st().tasks, *op), ..old(txn).st() }),
+            Err(e) => final(txn).st() == old(txn).st(),
+        },
 {
+    let ghost t0 = txn.st().tasks;
+    if try_apply_op(txn, op)? {
+        return Ok(());
+    }
+    proof { assert(apply(t0, *op) =~= t0); }
+    match op {
+        SyncOp::Create { uuid } => Err(Error::Database(opaque_string())),
+        SyncOp::Delete { uuid } => Err(Error::Database(opaque_string())),
+        SyncOp::Update { uuid, .. } => Err(Error::Database(opaque_string())),
+    }
+}
+//@end
+//@extract src/taskdb/apply.rs :: fn try_apply_op
+pub fn try_apply_op(txn: &mut dyn StorageTxn, op: &SyncOp) -> (r: Result<bool>)
+    requires old(txn).inv(), !old(txn).st().committed,
+    ensures final(txn).inv(),
+        //@ob C01 C04 C05 try_apply_op.applies-iff-valid-and-reports-only-storage-errors
+        match r {
+            Ok(b) => b == valid(old(txn).st().tasks, *op)
+                && final(txn).st() == (TxnView { tasks: apply(old(txn).st().tasks, *op), ..old(txn).st() }),
+            Err(e) => storage_err(e) && final(txn).st() == old(txn).st(),
+        },
+{
+    let ghost t0 = txn.st().tasks;
     match op {
         SyncOp::Create { uuid } => {
-            if !txn.create_task(*uuid)? {
-                return Err(Error::Database(opaque_string()));
-            }
+            txn.create_task(*uuid)
         }
-        SyncOp::Delete { ref uuid } => {
-            if !txn.delete_task(*uuid)? {
-                return Err(Error::Database(opaque_string()));
-            }
-        }
+        SyncOp::Delete { uuid } => txn.delete_task(*uuid),
         SyncOp::Update {
-            ref uuid,
-            ref property,
-            ref value,
+            uuid,
+            property,
+            value,
             timestamp: _,
         } => {
             if let Some(mut task) = txn.get_task(*uuid)? {
                 match value {
-                    Some(ref val) => task.insert(property.to_string(), val.clone()),
+                    Some(val) => task.insert(property.to_string(), val.clone()),
                     None => task.remove(property),
                 };
                 txn.set_task(*uuid, task)?;
+                proof {
+                    assert(txn.st().tasks =~= apply(t0, *op));
+                }
+                Ok(true)
             } else {
-                return Err(Error::Database(opaque_string()));
+                Ok(false)
             }
         }
     }
-    Ok(())
 }
 //@end
 //@extract src/taskdb/sync.rs :: struct Version
@@ -38,6 +71,7 @@ pub struct Version {
     pub operations: Vec<SyncOp>,
 }
 //@end
+//@props C01 C02 C03 C04 C20
 //@extract src/taskdb/sync.rs :: fn apply_version
 fn apply_version(
     txn: &mut dyn StorageTxn,
@@ -45,61 +79,248 @@ fn apply_version(
     transformed_server_ops: &mut Vec<SyncOp>,
     mut version: Version,
 ) -> (r: Result<()>)
+    requires old(txn).inv(), !old(txn).st().committed,
+    ensures final(txn).inv(),
+        // only the task set changes
+        final(txn).st() == (TxnView { tasks: final(txn).st().tasks, ..old(txn).st() }),
+        //@ob C01 C02 C03 C04 C20 apply_version.rebase-theorem: for every base state from which both the local operations and the incoming version are valid, the new local operations are valid on top of the incoming version and reproduce the replica's new task set
+        r is Ok ==> forall|b: State| rebase_pre(b, old(txn).st().tasks, old(local_ops)@, version.operations@) ==> {
+            let b2 = apply_seq(b, version.operations@);
+            valid_seq(b2, final(local_ops)@) && apply_seq(b2, final(local_ops)@) == final(txn).st().tasks
+        },
+        //@ob C04 C02 apply_version.only-storage-errors
+        r matches Err(e) ==> storage_err(e),
 {
+    let ghost s0 = txn.st();
+    let ghost tasks0 = txn.st().tasks;
+    let ghost l0 = local_ops@;
+    let ghost v = version.operations@;
     for server_op in it_server_op: drain_all(&mut version.operations)
+        invariant
+            it_server_op.seq() == v,
+            txn.inv(), !txn.st().committed, s0 == old(txn).st(), tasks0 == s0.tasks,
+            txn.st() == (TxnView { tasks: txn.st().tasks, ..s0 }),
+            forall|b: State| rebase_pre(b, tasks0, l0, v) ==> {
+                let bk = apply_seq(b, v.take(it_server_op.index() as int));
+                valid_seq(bk, local_ops@) && apply_seq(bk, local_ops@) == txn.st().tasks
+            },
     {
+        let ghost k = it_server_op.index() as int;
+        let ghost lk = local_ops@;
+        let ghost tk = txn.st().tasks;
+        let ghost s = server_op;
         let mut new_local_ops = Vec::with_capacity(local_ops.len());
         let mut svr_op = Some(server_op);
+        proof {
+            assert(lk.take(0) =~= Seq::<SyncOp>::empty());
+            assert forall|b: State| rebase_pre(b, tasks0, l0, v) implies valid(apply_seq(b, v.take(k)), s) by {
+                lemma_take_succ(b, v, k);
+                lemma_valid_take(b, v, k + 1);
+            }
+        }
         for local_op in it_local_op: drain_all(local_ops)
+            invariant
+                it_local_op.seq() == lk,
+                txn.inv(), !txn.st().committed,
+                txn.st() == (TxnView { tasks: txn.st().tasks, ..s0 }),
+                txn.st().tasks == tk,
+                0 <= k < v.len(), s == v[k],
+                forall|b: State| rebase_pre(b, tasks0, l0, v) ==> {
+                    let bk = apply_seq(b, v.take(k));
+                    valid_seq(bk, lk) && apply_seq(bk, lk) == tk
+                },
+                forall|b: State| rebase_pre(b, tasks0, l0, v) ==> {
+                    let bk = apply_seq(b, v.take(k));
+                    let bi = apply_seq(bk, lk.take(it_local_op.index() as int));
+                    valid_opt(bi, svr_op)
+                    && valid_seq(apply(bk, s), new_local_ops@)
+                    && apply_seq(apply(bk, s), new_local_ops@) == apply_opt(bi, svr_op)
+                },
         {
+            let ghost i = it_local_op.index() as int;
+            let ghost svr0 = svr_op;
+            let ghost nl0 = new_local_ops@;
             if let Some(o) = svr_op {
                 let (new_server_op, new_local_op) = SyncOp::transform(o, local_op.clone());
                 svr_op = new_server_op;
                 if let Some(o) = new_local_op {
                     new_local_ops.push(o);
                 }
+                proof {
+                    assert forall|b: State| rebase_pre(b, tasks0, l0, v) implies ({
+                        let bk = apply_seq(b, v.take(k));
+                        let bi = apply_seq(bk, lk.take(i + 1));
+                        valid_opt(bi, svr_op)
+                        && valid_seq(apply(bk, s), new_local_ops@)
+                        && apply_seq(apply(bk, s), new_local_ops@) == apply_opt(bi, svr_op)
+                    }) by {
+                        let bk = apply_seq(b, v.take(k));
+                        let bi = apply_seq(bk, lk.take(i));
+                        lemma_take_succ(bk, lk, i);
+                        lemma_valid_take(bk, lk, i + 1);
+                        lemma_ok_tp1(bi, o, local_op, (new_server_op, new_local_op));
+                        if let Some(o2) = new_local_op {
+                            lemma_apply_seq_push(apply(bk, s), nl0, o2);
+                        }
+                    }
+                }
             } else {
                 new_local_ops.push(local_op);
+                proof {
+                    assert forall|b: State| rebase_pre(b, tasks0, l0, v) implies ({
+                        let bk = apply_seq(b, v.take(k));
+                        let bi = apply_seq(bk, lk.take(i + 1));
+                        valid_opt(bi, svr_op)
+                        && valid_seq(apply(bk, s), new_local_ops@)
+                        && apply_seq(apply(bk, s), new_local_ops@) == apply_opt(bi, svr_op)
+                    }) by {
+                        let bk = apply_seq(b, v.take(k));
+                        lemma_take_succ(bk, lk, i);
+                        lemma_valid_take(bk, lk, i + 1);
+                        lemma_apply_seq_push(apply(bk, s), nl0, local_op);
+                    }
+                }
             }
         }
+        proof {
+            assert(lk.take(lk.len() as int) =~= lk);
+        }
         if let Some(o) = svr_op {
-            if let Err(e) = apply::apply_op(txn, &o) {
+            if !apply::try_apply_op(txn, &o)? {
             }
             transformed_server_ops.push(o);
         }
         *local_ops = new_local_ops;
+        proof {
+            assert forall|b: State| rebase_pre(b, tasks0, l0, v) implies ({
+                let bk = apply_seq(b, v.take(k + 1));
+                valid_seq(bk, local_ops@) && apply_seq(bk, local_ops@) == txn.st().tasks
+            }) by {
+                lemma_take_succ(b, v, k);
+                lemma_valid_take(b, v, k + 1);
+            }
+        }
     }
+    proof { assert(v.take(v.len() as int) =~= v); }
     Ok(())
 }
 //@end
+//@props C01 C02 C04 C12 C14
+/// from_op's contract (stated through the wire view) determines its result
+pub proof fn lemma_from_op_is_to_sync1(op: Operation, r: Option<SyncOp>)
+    requires from_op_post(op, r)
+    ensures r == to_sync1(op)
+{
+    match to_sync1(op) {
+        Some(s) => { lemma_wire_injective(r->Some_0, s); },
+        None => {},
+    }
+}
+/// what the loop invariant of `sync` says about the server's last objection: it named a position that the replica has since passed
+pub open spec fn bytes_of(v: Vec<u8>) -> Seq<u8> { v@ }
+pub open spec fn req_ok(c: Chain, req: Option<Uuid>, req_pos: int) -> bool {
+    req matches Some(h) ==> 0 < req_pos <= c.len() && id_at(c, req_pos) == h
+}
 // partial correctness: termination of the retry loop under endless contention is a liveness property (not claimed)
 #[verifier::exec_allows_no_decreases_clause]
-//@extract src/taskdb/sync.rs :: fn sync
+//@extract src/taskdb/sync.rs :: fn sync | R16
 pub fn sync(
     server: &mut Box<dyn Server>,
     txn: &mut dyn StorageTxn,
     avoid_snapshots: bool,
 ) -> (r: Result<()>)
+    requires
+        old(txn).inv(), !old(txn).st().committed, chain_wf(old(server).chain()),
+        // the replica invariant (docs/src/sync-model.md) holds for the stored replica w.r.t. the server's chain
+        exists|p: int| #[trigger] ri(old(server).chain(), p, old(txn).st().base, old(txn).st().tasks, to_sync(old(txn).st().unsynced)),
+    ensures
+        final(txn).inv(), chain_wf(final(server).chain()), prefix(old(server).chain(), final(server).chain()),
+        //@ob C01 C02 sync.on-success-the-replica-is-exactly-a-version-of-the-chain-with-nothing-pending-and-committed
+        r is Ok ==> final(txn).st().committed && final(txn).st().unsynced.len() == 0
+            && exists|p: int| #[trigger] ri(final(server).chain(), p, final(txn).st().base, final(txn).st().tasks, Seq::<SyncOp>::empty()),
+        //@ob C04 sync.any-failure-leaves-the-transaction-uncommitted
+        r is Err ==> !final(txn).st().committed,
+        //@ob C02 sync.a-correct-server-never-causes-OutOfSync
+        !(r matches Err(Error::OutOfSync)),
+        //@ob C15 sync.does-not-touch-the-working-set
+        r is Ok ==> final(txn).st().ws == old(txn).st().ws,
 {
+    let ghost c0 = server.chain();
+    let ghost st0 = txn.st();
+    let ghost mut p: int = choose|p: int| ri(c0, p, st0.base, st0.tasks, to_sync(st0.unsynced));
     if txn.is_empty()? {
         if let Some((version, snap)) = server.get_snapshot()? {
+            let ghost c1 = server.chain();
+            proof {
+                assert(st0.unsynced =~= Seq::<Operation>::empty());
+                assert(to_sync(st0.unsynced) =~= Seq::<SyncOp>::empty());
+            }
             snapshot::apply_snapshot(txn, version, snap.as_ref())?;
+            proof {
+                p = choose|k: int| 0 < k <= c1.len() && #[trigger] id_at(c1, k) == version
+                    && snap_decodable(snap@) && snap_decode(snap@) == replay(c1, k);
+            }
+        } else {
+            proof { lemma_ri_monotone(c0, server.chain(), p, st0.base, st0.tasks, to_sync(st0.unsynced)); }
         }
     }
     let mut transformed_server_ops = Vec::new();
     let mut base_version_id = txn.base_version()?;
     let mut local_ops = Vec::new();
+    let ghost st1 = txn.st();
+    let ghost c1 = server.chain();
+    proof { assert(Seq::<Operation>::empty().take(0) =~= Seq::<Operation>::empty()); }
     for op in it_op: txn.unsynced_operations()?
+        invariant
+            it_op.seq() == st1.unsynced,
+            local_ops@ == to_sync(st1.unsynced.take(it_op.index() as int)),
+            txn.inv(), txn.st() == st1, !st1.committed, server.chain() == c1, chain_wf(c1), prefix(c0, c1), c0 == old(server).chain(),
+            st1.ws == old(txn).st().ws,
+            base_version_id == st1.base,
+            ri(c1, p, st1.base, st1.tasks, to_sync(st1.unsynced)),
     {
+        let ghost k = it_op.index() as int;
+        proof {
+            assert(st1.unsynced.take(k + 1) =~= st1.unsynced.take(k).push(op));
+            lemma_to_sync_push(st1.unsynced.take(k), op);
+        }
         if let Some(sync_op) = SyncOp::from_op(op) {
+            proof { lemma_from_op_is_to_sync1(op, Some(sync_op)); }
             local_ops.push(sync_op);
+        } else {
+            proof { lemma_from_op_is_to_sync1(op, None); }
         }
     }
+    proof { assert(st1.unsynced.take(st1.unsynced.len() as int) =~= st1.unsynced); }
     let mut requested_parent_version_id = None;
+    let ghost mut req_pos: int = 0;
     loop
+        invariant
+            c0 == old(server).chain(), chain_wf(server.chain()), prefix(c0, server.chain()),
+            txn.inv(), !txn.st().committed,
+            txn.st() == (TxnView { tasks: txn.st().tasks, base: txn.st().base, ..st1 }),
+            st1.ws == old(txn).st().ws,
+            base_version_id == txn.st().base,
+            //@ob C01 C02 sync.loop-invariant: the replica invariant holds for the rebased local operations, over ALL that remain unsent
+            ri(server.chain(), p, txn.st().base, txn.st().tasks, local_ops@),
+            req_ok(server.chain(), requested_parent_version_id, req_pos),
+            requested_parent_version_id is Some ==> req_pos <= p || true,
+        ensures
+            local_ops@.len() == 0,
     {
         loop
+            invariant
+                c0 == old(server).chain(), chain_wf(server.chain()), prefix(c0, server.chain()),
+                txn.inv(), !txn.st().committed,
+                txn.st() == (TxnView { tasks: txn.st().tasks, base: txn.st().base, ..st1 }),
+                st1.ws == old(txn).st().ws,
+                base_version_id == txn.st().base,
+                ri(server.chain(), p, txn.st().base, txn.st().tasks, local_ops@),
+                req_ok(server.chain(), requested_parent_version_id, req_pos),
+            ensures
+                requested_parent_version_id is Some ==> req_pos <= p,
         {
+            let ghost ca = server.chain();
             if let GetVersionResult::Version {
                 version_id,
                 history_segment,
@@ -108,10 +329,36 @@ pub fn sync(
             {
                 let version_str = str::from_utf8(&history_segment).unwrap();
                 let version: Version = serde_json::from_str(version_str).unwrap();
+                let ghost cb = server.chain();
+                let ghost t1 = txn.st().tasks;
+                let ghost l1 = local_ops@;
+                let ghost vops = version.operations@;
+                proof {
+                    lemma_replay_prefix(ca, cb, p);
+                    lemma_prefix_trans(c0, ca, cb);
+                    let k = choose|k: int| version_at(cb, k, base_version_id, version_id, decode(history_segment@));
+                    lemma_id_at_unique(cb, k, p);
+                    if requested_parent_version_id is Some { lemma_replay_prefix(ca, cb, req_pos); }
+                    assert(rebase_pre(replay(cb, p), t1, l1, vops));
+                }
                 apply_version(txn, &mut local_ops, &mut transformed_server_ops, version)?;
                 txn.set_base_version(version_id)?;
                 base_version_id = version_id;
+                proof {
+                    assert(rebase_pre(replay(cb, p), t1, l1, vops));
+                    assert(replay(cb, p + 1) == apply_seq(replay(cb, p), cb[p].ops));
+                    p = p + 1;
+                }
             } else {
+                proof {
+                    let cb = server.chain();
+                    lemma_replay_prefix(ca, cb, p);
+                    lemma_prefix_trans(c0, ca, cb);
+                    if requested_parent_version_id is Some { lemma_replay_prefix(ca, cb, req_pos); }
+                    let m = choose|m: int| ca.len() <= m <= cb.len() && no_child_within(cb, m, base_version_id);
+                    // the base version is id_at(cb, p) and has no child among the first m versions, so p >= m
+                    if p < m { assert(id_at(cb, p) != base_version_id); }
+                }
                 break;
             }
         }
@@ -121,6 +368,16 @@ pub fn sync(
         let mut batch_len = 0;
         let mut batch_size = 0;
         while batch_len < local_ops.len()
+            invariant_except_break
+                batch_len == 1 ==> batch_size <= isize::MAX,
+                batch_len >= 2 ==> batch_size <= 1000000,
+            invariant
+                batch_len <= local_ops.len(), local_ops.len() > 0,
+                batch_len == 0 ==> batch_size == 0,
+            ensures
+                //@ob C01 sync.batches-hold-at-least-one-operation
+                1 <= batch_len <= local_ops.len(),
+            decreases local_ops.len() - batch_len,
         {
             batch_size += serde_json::to_string(&local_ops[batch_len]).unwrap().len();
             if batch_len > 0 && batch_size > 1000000 {
@@ -131,13 +388,39 @@ pub fn sync(
         let new_version = Version {
             operations: local_ops[..batch_len].to_vec(),
         };
-        let history_segment = serde_json::to_string(&new_version).unwrap().into();
+        let history_segment = into_conv(serde_json::to_string(&new_version).unwrap());
+        let ghost ca = server.chain();
+        let ghost l1 = local_ops@;
+        let ghost n = batch_len as int;
+        let ghost seg = bytes_of(history_segment);
+        proof {
+            assert(new_version.operations@ =~= l1.take(n));
+            assert(decodable(seg) && decode(seg) == l1.take(n));
+            lemma_valid_take_skip(replay(ca, p), l1, n);
+            assert forall|k: int| 0 <= k <= ca.len() && #[trigger] id_at(ca, k) == base_version_id
+                implies valid_seq(replay(ca, k), decode(seg)) by {
+                lemma_id_at_unique(ca, k, p);
+            }
+        }
         let (res, snapshot_urgency) = server.add_version(base_version_id, history_segment)?;
+        let ghost cb = server.chain();
+        proof {
+            lemma_replay_prefix(ca, cb, p);
+            lemma_prefix_trans(c0, ca, cb);
+            if requested_parent_version_id is Some { lemma_replay_prefix(ca, cb, req_pos); }
+        }
         match res {
             AddVersionResult::Ok(new_version_id) => {
                 txn.set_base_version(new_version_id)?;
                 base_version_id = new_version_id;
                 local_ops = local_ops.split_off(batch_len);
+                proof {
+                    assert(local_ops@ =~= l1.skip(n));
+                    let k = choose|k: int| ca.len() <= k && version_at(cb, k, id_at(cb, p), new_version_id, l1.take(n));
+                    lemma_id_at_unique(cb, k, p);
+                    assert(replay(cb, p + 1) == apply_seq(replay(cb, p), cb[p].ops));
+                    p = p + 1;
+                }
                 let base_urgency = if avoid_snapshots {
                     SnapshotUrgency::High
                 } else {
@@ -145,25 +428,53 @@ pub fn sync(
                 };
                 if local_ops.is_empty() && snapshot_urgency >= base_urgency {
                     let snapshot = snapshot::make_snapshot(txn)?;
+                    proof {
+                        assert(id_at(cb, p) == new_version_id);
+                    }
+                    let ghost cc = server.chain();
+                    //@ob C12 sync.snapshot-only-when-the-server's-urgency-meets-the-replica's-threshold (High when avoiding snapshots, else Low)
+                    proof { assert(urgency_rank(snapshot_urgency) >= (if avoid_snapshots { 2int } else { 1int })); }
                     server.add_snapshot(new_version_id, snapshot)?;
+                    proof {
+                        let cd = server.chain();
+                        lemma_replay_prefix(cc, cd, p);
+                        lemma_prefix_trans(c0, cc, cd);
+                        if requested_parent_version_id is Some { lemma_replay_prefix(cc, cd, req_pos); }
+                    }
                 }
             }
             AddVersionResult::ExpectedParentVersion(parent_version_id) => {
+                let ghost m = choose|m: int| ca.len() <= m && head_is(cb, m, parent_version_id);
                 if let Some(requested) = requested_parent_version_id {
                     if parent_version_id == requested {
+                        proof {
+                            // the server named the same head twice although the replica had pulled up to it: impossible
+                            lemma_id_at_unique(cb, m, req_pos);
+                            assert(m == p);
+                            assert(false);
+                        }
                         return Err(Error::OutOfSync);
                     }
                 }
                 requested_parent_version_id = Some(parent_version_id);
+                proof { req_pos = m; }
             }
         }
     }
+    let ghost cf = server.chain();
+    let ghost sf = txn.st();
+    proof { assert(local_ops@ =~= Seq::<SyncOp>::empty()); }
     for op in it_op2: transformed_server_ops
+        invariant
+            txn.inv(), !txn.st().committed, server.chain() == cf, chain_wf(cf), prefix(c0, cf), c0 == old(server).chain(),
+            txn.st() == (TxnView { unsynced: txn.st().unsynced, ..sf }),
+            sf.ws == old(txn).st().ws,
     {
         txn.add_operation(op.into_op())?;
     }
     txn.sync_complete()?;
     txn.commit()?;
+    proof { assert(ri(cf, p, txn.st().base, txn.st().tasks, Seq::<SyncOp>::empty())); }
     Ok(())
 }
 //@end
